@@ -49,8 +49,10 @@ def main():
     # C15's known finding prints KNOWN-FINDING and exits 0: nothing special needed
     out = os.path.join(VERIF, "refactors", rid)
     os.makedirs(out, exist_ok=True)
-    shutil.copy(patch, os.path.join(out, "patch.diff"))
-    shutil.copy(demo, os.path.join(out, "demo.py"))
+    for src, name in ((patch, "patch.diff"), (demo, "demo.py")):
+        dst = os.path.join(out, name)
+        if os.path.abspath(src) != os.path.abspath(dst):
+            shutil.copy(src, dst)
     meta = {"id": rid, "what": open(note).read().strip() if note and os.path.exists(note) else "",
             "confirmed_harmless": {"demo_exit_unmodified": base.returncode, "demo_exit_with_patch": mut.returncode,
                                    "test_suite_with_patch": tests.stdout.strip()[-80:], "ok": harmless},
